@@ -637,6 +637,7 @@ func (sb *subT) delivered(markerPayload, markerNal []byte) *pbt.Violation {
 		if sb.rc.JoinErr() != nil {
 			return nil
 		}
+		pbt.Count("tail-delivery-judged/"+sb.kind, 1)
 		if sb.rc.WaitFor(func(r lalclient.Rec) bool { return bytes.Equal(r.Payload, markerPayload) }, lalclient.DeliverTimeout) < 0 {
 			if err := sb.rc.Err(); err != nil {
 				return pbt.V("framing/"+sb.kind, "%s consumer: %v", sb.kind, err)
@@ -647,6 +648,7 @@ func (sb *subT) delivered(markerPayload, markerNal []byte) *pbt.Violation {
 		if !sb.hadVideo || markerNal == nil {
 			return nil
 		}
+		pbt.Count("tail-delivery-judged/"+sb.kind, 1)
 		pred := func(body []byte) bool { return tsHasPayload(body, markerNal) }
 		ok := false
 		if sb.ts != nil {
@@ -665,6 +667,7 @@ func (sb *subT) delivered(markerPayload, markerNal []byte) *pbt.Violation {
 		if sb.rt.state != 1 || sb.rt.ferr != nil {
 			return nil // judged by lost / framing
 		}
+		pbt.Count("tail-delivery-judged/rtsp", 1)
 		for _, f := range sb.rt.frames[sb.framesAtTail:] {
 			if bytes.Contains(f.payload, markerNal) {
 				return nil
